@@ -399,9 +399,15 @@ def check_failed_subprojects(ctx: Ctx, setup_output: str) -> None:
                 ctx.add(f'install-plan:lists-subproject-not-in-build:{kind}', {'plan_kind': kind, 'source': src, 'entry': None, 'plan_entry': ent,
                                                                                'failed_subprojects': [g['name'] for g in ghosts]})
     ctx.count('monitor:install-plan-entries', n)
+    # a path that a rule of the build itself also installs (the parent's install_subdir into /usr/bin next to a
+    # discarded rule naming /usr/bin) says nothing about the discarded rule: only paths no live rule produces are judged
+    live = {os.path.normpath(e['path']) for e in spec['entries']}
     for src, dst in installed.items():
         ctx.count('monitor:intro-installed-entries')
         lp = os.path.normpath(dst)
+        if lp in live:
+            ctx.count('oracle:intro-installed-destination-shared-with-a-live-rule')
+            continue
         if lp in gpaths:
             ctx.add('intro-installed:' + gpaths[lp], {'source': src, 'destination': dst})
     ctx.history = ctx.step = ''
